@@ -33,6 +33,54 @@ pub fn run_request(b: &mut Builder, h: &mut Handles, r: &Sexp) {
             h.0.push(s);
             h.0.push(c)
         }
+        // ---- arithmetic gadgets on wire lists (C03); operands MSB first
+        "eqc" => { let w = b.push_eq_circuit(&h.wires(&a[0]), &h.wires(&a[1])); h.0.push(w) }
+        "addc" => {
+            let (sum, c, cp) = b.push_addition_circuit(&h.wires(&a[0]), &h.wires(&a[1]));
+            h.0.extend(sum);
+            h.0.push(c);
+            h.0.push(cp)
+        }
+        "negc" => { let r = b.push_negation_circuit(&h.wires(&a[0])); h.0.extend(r) }
+        "subc" => {
+            let (r, ov) = b.push_subtraction_circuit(&h.wires(&a[0]), &h.wires(&a[1]), a[2].atom() == "1");
+            h.0.extend(r);
+            h.0.push(ov)
+        }
+        "udiv" => {
+            let (q, r) = b.push_unsigned_division_circuit(&h.wires(&a[0]), &h.wires(&a[1]));
+            h.0.extend(q);
+            h.0.extend(r)
+        }
+        "sdiv" => {
+            let (mut x, mut y) = (h.wires(&a[0]), h.wires(&a[1]));
+            let (q, r) = b.push_signed_division_circuit(&mut x, &mut y);
+            h.0.extend(q);
+            h.0.extend(r)
+        }
+        "gt" => { let w = b.push_gt_circuit(a[0].usize(), &h.wires(&a[1]), &h.wires(&a[2])); h.0.push(w) }
+        "cmp" => {
+            let (lt, gt) = b.push_comparator_circuit(
+                a[0].usize(), &h.wires(&a[1]), a[2].atom() == "1", &h.wires(&a[3]), a[4].atom() == "1");
+            h.0.push(lt);
+            h.0.push(gt)
+        }
+        "mult" => {
+            let (s, c) = b.push_multiplier(h.wire(&a[0]), h.wire(&a[1]), h.wire(&a[2]), h.wire(&a[3]));
+            h.0.push(s);
+            h.0.push(c)
+        }
+        "condswap" => {
+            let (x, y) = b.push_condswap(h.wire(&a[0]), h.wire(&a[1]), h.wire(&a[2]));
+            h.0.push(x);
+            h.0.push(y)
+        }
+        // compile.rs extend_to_bits (no gates; sign / zero extension of a wire vector)
+        "ext" => {
+            let mut v = h.wires(&a[0]);
+            garble_lang::verif_hooks::extend_to_bits(&mut v, a[1].atom() == "1", a[2].usize());
+            h.0.extend(v)
+        }
         k => panic!("harness: unknown request {k}"),
     }
 }
